@@ -208,6 +208,22 @@ impl<'a> Exec<'a> {
                     _ => res(e.add_assertion_envelope_salted(x, false)),
                 }
             }
+            "add_assertions" => {
+                let e = reg(regs, a(0))?;
+                let mut xs: Vec<Envelope> = vec![];
+                for r in a(1).as_array().ok_or("register list")? {
+                    xs.push(reg(regs, r)?.clone());
+                }
+                // add_assertions / add_assertions_salted unwrap internally: handing them a
+                // non-assertion is a documented caller error, so they are only used when every
+                // element may legally stand in an assertion position
+                let all_ok = xs.iter().all(|x| x.is_subject_assertion() || x.is_subject_obscured());
+                match (var % 3, all_ok) {
+                    (0, true) => Outcome::Env(e.add_assertions(&xs)),
+                    (1, true) => Outcome::Env(e.add_assertions_salted(&xs, false)),
+                    _ => res(e.add_assertion_envelopes(&xs)),
+                }
+            }
             "remove_assertion" => {
                 let e = reg(regs, a(0))?;
                 Outcome::Env(e.remove_assertion(reg(regs, a(1))?.clone()))
@@ -345,6 +361,10 @@ impl<'a> Exec<'a> {
                     }
                 }
             }
+            o if o.starts_with("obs_") => match crate::obs::run_obs(o, step, regs, self.ctx, var)? {
+                Some(v) => Outcome::Obs(v),
+                None => Outcome::Unsupported(format!("unknown observation {}", o)),
+            },
             _ => Outcome::Unsupported(format!("unknown op {}", op)),
         })
     }
